@@ -199,6 +199,15 @@ type vsXfer struct {
 }
 
 var vsTrace = os.Getenv("GOSX_POINT_TRACE") != ""
+var vsBlockMode = os.Getenv("GOSX_REPLAY_MODE") == "block"
+
+// vsHandedOff: did the calling goroutine give the token away at its current point?
+func vsHandedOff() bool {
+	vs.mu.Lock()
+	defer vs.mu.Unlock()
+	g, ok := vsSelfLocked()
+	return ok && vs.on && vs.owner != g
+}
 
 var vs struct {
 	mu     sync.Mutex
@@ -332,6 +341,13 @@ func vsAcquire(try func() bool, real func()) {
 		return
 	}
 	vsBefore()
+	if vsBlockMode && vsHandedOff() {
+		// second replay mode: where the symbolic run blocked, block in the real
+		// primitive (so that e.g. a waiting writer really holds back new readers)
+		real()
+		vsAfter()
+		return
+	}
 	for i := 0; i < 2000; i++ {
 		vsAfter()
 		if !vs.on || try() {
